@@ -40,6 +40,10 @@ fn same_c(c: &str) -> &'static str {
 pub fn alphabet() -> Vec<P> {
     let mut v = vec![P::omitted("?"), P::amt("?", "0", "")];
     v.push(P::amt("?", "0", "").with_ann(Ann::Rate("2", "X")));
+    // assignments (`Account = X`): the assigned amount takes part in balancing like a written one
+    v.push(P::assign("?", crate::refledger::Bal::Zero));
+    v.push(P::assign("?", crate::refledger::Bal::Val("0", "X")));
+    v.push(P::assign("?", crate::refledger::Bal::Val("1", "Y")));
     for c in ["X", "Y", "Z"] {
         let o = next_c(c);
         for val in ["1", "-1", "0", "2", "0.005", "-0.015"] {
@@ -116,6 +120,12 @@ fn histories() -> Vec<Vec<Txn>> {
         vec![vec![P::amt("P1", "1", "X"), P::amt("P2", "-1", "X")]],
         vec![vec![P::amt("P1", "5", "Y"), P::amt("P1", "1", "X"), P::omitted("P3")]],
         vec![vec![P::amt("P1", "3", "X").with_ann(Ann::Rate("2", "Y")), P::amt("P2", "-6", "Y")], vec![P::amt("P4", "1", "Z").with_ann(Ann::Rate("2", "X")), P::omitted("P2")]],
+        // an account emptied and refilled by assignments only (no ordinary posting in between)
+        vec![
+            vec![P::amt("P1", "10", "X"), P::omitted("P3")],
+            vec![P::assign("P1", crate::refledger::Bal::Val("0", "X")), P::omitted("P3")],
+            vec![P::assign("P1", crate::refledger::Bal::Val("5", "Y")), P::omitted("P3")],
+        ],
     ]
 }
 
